@@ -187,7 +187,7 @@ def _start_stall_watchdog(ctx, outpath, limit):
     t.start()
 
 
-INTERNAL_ERRORS = (AssertionError, IndexError, KeyError, AttributeError, UnboundLocalError, NameError, ZeroDivisionError,
+INTERNAL_ERRORS = (AssertionError, IndexError, KeyError, AttributeError, UnboundLocalError, NameError, ZeroDivisionError, TypeError,
                    RecursionError, RuntimeError)
 
 
